@@ -36,10 +36,10 @@ def run(ctx: Ctx):
         "NOT decided: that each einsum equation / reshape chain equals the textbook index formula",
         "decorated functions other than staticmethod/classmethod/property/contextmanager are skipped by CALL-BINDS (their signature may be changed by the decorator)",
     )
-    registry(ctx)
-    sig_agree(ctx)
-    call_binds(ctx)
-    option_live(ctx)
+    ctx.guarded(registry, ctx)
+    ctx.guarded(sig_agree, ctx)
+    ctx.guarded(call_binds, ctx)
+    ctx.guarded(option_live, ctx)
 
 
 def registry(ctx: Ctx):
@@ -184,12 +184,16 @@ def dependent_returns(fnode, roots, seeds=None):
                     assign(list(t.elts), dep, T)
 
     def block(stmts, T, flag):
-        """-> (T_out, sticky flag).  T is mutated/returned."""
+        """-> (T_out, sticky): ``sticky`` is True when, inside this block, an abrupt exit
+        (return / raise / break / continue) happened under option-dependent control, so that
+        everything executed afterwards is control-dependent on the option too."""
+        sticky = False
         for s in stmts:
             if isinstance(s, (ast.FunctionDef, ast.AsyncFunctionDef, ast.ClassDef)):
                 continue
+            cur_flag = flag or sticky
             if isinstance(s, ast.If):
-                f2 = flag or mentions(s.test, T)
+                f2 = cur_flag or mentions(s.test, T)
                 T1, a = block(s.body, set(T), f2)
                 T2, b = block(s.orelse, set(T), f2)
                 outs = []
@@ -199,67 +203,67 @@ def dependent_returns(fnode, roots, seeds=None):
                     outs.append(T2)
                 T = set().union(*outs) if outs else set(T)
                 if (f2 and (_has_abrupt(s.body) or _has_abrupt(s.orelse))) or a or b:
-                    flag = True
+                    sticky = True
                 continue
             if isinstance(s, (ast.For, ast.AsyncFor, ast.While)):
                 is_for = not isinstance(s, ast.While)
                 cur = set(T)
-                sticky = False
+                lsticky = False
                 for _ in range(12):
-                    f2 = flag or sticky or mentions(s.iter if is_for else s.test, cur)
+                    f2 = cur_flag or lsticky or mentions(s.iter if is_for else s.test, cur)
                     Tb = set(cur)
                     if is_for:
                         assign([s.target], f2, Tb)
                     Tb, a = block(s.body, Tb, f2)
-                    sticky = sticky or a or (f2 and _has_abrupt(s.body))
+                    lsticky = lsticky or a or (f2 and _has_abrupt(s.body))
                     new = cur | Tb
                     if new == cur:
                         break
                     cur = new
                 T = cur
-                T, b = block(s.orelse, T, flag or sticky)
-                if sticky or b:
-                    flag = True
+                T, b = block(s.orelse, T, cur_flag or lsticky)
+                if lsticky or b:
+                    sticky = True
                 continue
             if isinstance(s, ast.Try):
                 T0 = set(T)
-                T, a = block(s.body, T, flag)
+                T, a = block(s.body, T, cur_flag)
                 for h in s.handlers:
-                    Th, ah = block(h.body, set(T0) | set(T), flag)
+                    Th, ah = block(h.body, set(T0) | set(T), cur_flag)
                     T |= Th
                     a = a or ah
-                T, b = block(s.orelse, T, flag)
-                T, c = block(s.finalbody, T, flag)
-                flag = flag or a or b or c
+                T, b = block(s.orelse, T, cur_flag)
+                T, c = block(s.finalbody, T, cur_flag)
+                sticky = sticky or a or b or c
                 continue
             if isinstance(s, (ast.With, ast.AsyncWith)):
                 for it in s.items:
                     if it.optional_vars is not None:
-                        assign([it.optional_vars], flag or mentions(it.context_expr, T), T)
-                T, a = block(s.body, T, flag)
-                flag = flag or a
+                        assign([it.optional_vars], cur_flag or mentions(it.context_expr, T), T)
+                T, a = block(s.body, T, cur_flag)
+                sticky = sticky or a
                 continue
             if isinstance(s, ast.Assign):
-                assign(s.targets, flag or mentions(s.value, T), T)
+                assign(s.targets, cur_flag or mentions(s.value, T), T)
                 if id(s) in seeds:
                     T.update(seeds[id(s)])
             elif isinstance(s, ast.AugAssign):
-                if flag or mentions(s.value, T) or mentions(s.target, T):
+                if cur_flag or mentions(s.value, T) or mentions(s.target, T):
                     T.update(_target_names(s.target))
             elif isinstance(s, ast.AnnAssign):
                 if s.value is not None:
-                    assign([s.target], flag or mentions(s.value, T), T)
+                    assign([s.target], cur_flag or mentions(s.value, T), T)
             elif isinstance(s, ast.Expr):
                 v = s.value
                 if isinstance(v, ast.Call) and isinstance(v.func, ast.Attribute):
                     # receiver.method(args): the receiver absorbs its arguments
-                    if flag or any(mentions(a, T) for a in v.args) or any(mentions(k.value, T) for k in v.keywords):
+                    if cur_flag or any(mentions(a, T) for a in v.args) or any(mentions(k.value, T) for k in v.keywords):
                         T.update(_target_names(v.func.value))
             elif isinstance(s, ast.Return):
-                ok = flag or mentions(s.value, T)
-                bad[id(s)] = (s, bad.get(id(s), (s, True))[1] and not ok) if id(s) in bad else (s, not ok)
+                ok = cur_flag or mentions(s.value, T)
+                bad[id(s)] = (s, bad[id(s)][1] and not ok) if id(s) in bad else (s, not ok)
             ever.update(T)
-        return T, flag
+        return T, sticky
 
     block(fnode.body, set(roots), False)
     return ever, [s for s, isbad in bad.values() if isbad]
